@@ -21,6 +21,7 @@ import Kanzi.Drv.CM
 import Kanzi.Drv.SRT
 import Kanzi.Drv.CliPaths
 import Kanzi.Drv.ImageGen
+import Kanzi.Drv.Alias
 
 open Kanzi
 
@@ -190,5 +191,6 @@ def main (args : List String) : IO UInt32 := do
   | ["srt"] => loop stdin stdout Kanzi.Drv.srt; return 0
   | ["clipath"] => loop stdin stdout Kanzi.Drv.clipath; return 0
   | ["imagegen"] => loop stdin stdout Kanzi.Drv.imagegen; return 0
+  | ["alias"] => loop stdin stdout Kanzi.Drv.alias; return 0
   | ["image"] => loop stdin stdout Kanzi.Drv.image; return 0
   | _ => IO.eprintln "usage: kmodel <norm>"; return 2
